@@ -321,8 +321,10 @@ def config_cases(cfg, order_rng: Optional[random.Random] = None):
 VARS = ["x", "y", "a", "b"]
 
 
-def macro_expr(rng: random.Random, depth: int, scope: List[Tuple[str, str]]):
-    """scope: (variable, kind of its values: 'int' | 'map' | 'list'), innermost first"""
+def macro_expr(rng: random.Random, depth: int, scope: List[Tuple[str, str]], blocked=frozenset()):
+    """scope: (variable, kind of its values: 'int' | 'map' | 'list'), innermost first.
+    blocked: identifiers that a package level may resolve first (never used as the *range* of a macro: iterating
+    a NameContainer or a bound map yields its keys, which the model's value type does not carry)"""
     r = rng.random()
     if depth <= 0 or r < 0.25:
         # a reference: to a macro variable (with optional field), or to a binding
@@ -332,14 +334,14 @@ def macro_expr(rng: random.Random, depth: int, scope: List[Tuple[str, str]]):
                 vis[v] = kind
             v, kind = rng.choice(sorted(vis.items()))
             return ["ref", v if (kind != "map" or rng.random() < 0.4) else v + "." + rng.choice(["k", "b", "zz"])]
-        return ["ref", rng.choice(["a", "a.b", "x", "y", "y.k", "b", "a.b.c"])]
+        return ["ref", rng.choice(["a", "a.b", "x", "y", "y.k", "b", "a.b.c", "w.k"])]
     if r < 0.45:
-        return ["list", [macro_expr(rng, depth - 1, scope) for _ in range(rng.randint(1, 3))]]
+        return ["list", [macro_expr(rng, depth - 1, scope, blocked) for _ in range(rng.randint(1, 3))]]
     x = rng.choice(VARS)
     rr = rng.random()
     seen, lists = set(), []
     for v, kind in scope:                     # only the innermost binding of each name is visible
-        if v not in seen and kind == "list":
+        if v not in seen and kind == "list" and v not in blocked:
             lists.append(v)
         seen.add(v)
     if lists and rr < 0.3:
@@ -351,8 +353,8 @@ def macro_expr(rng: random.Random, depth: int, scope: List[Tuple[str, str]]):
     elif rr < 0.9:
         rng_e, kind = ["lit", [[rng.randint(1, 9) for _ in range(rng.randint(0, 2))] for _ in range(rng.randint(1, 2))]], "list"
     else:
-        rng_e, kind = ["list", [macro_expr(rng, depth - 1, scope) for _ in range(rng.randint(1, 2))]], "int"
-    return ["map", x, rng_e, macro_expr(rng, depth - 1, [(x, kind)] + scope)]
+        rng_e, kind = ["list", [macro_expr(rng, depth - 1, scope, blocked) for _ in range(rng.randint(1, 2))]], "int"
+    return ["map", x, rng_e, macro_expr(rng, depth - 1, [(x, kind)] + scope, blocked)]
 
 
 MACRO_BINDS = [
@@ -361,7 +363,7 @@ MACRO_BINDS = [
     [["x", [1, 2]], ["y", 200], ["a", {"b": 320}], ["b", 400]],
     [["x", 100], ["y.k", 210], ["a.b.c", 330]],
     [],
-    [["p.a", 500], ["x", 100], ["p.y", {"k": 520}]],
+    [["p.a", 500], ["x", 100], ["p.y", 520], ["p.w", {"k": 530}]],
     [["p.q.y", 600], ["p.a.b", 510], ["a", 300], ["y", 200]],
 ]
 
@@ -411,10 +413,11 @@ class C12(Prop):
                                   "binds": [list(b) for b in binds], "e": ["ref", ref]})
         # macro nestings
         for _ in range(260 if quick else 8000):
-            e = macro_expr(rng, rng.randint(1, 3), [])
             binds = rng.choice(MACRO_BINDS)
             packaged = any(p.startswith("p.") for p, _ in binds)
             pkg = rng.choice(["p", "p.q", "p", ""]) if packaged else ("" if rng.random() < 0.85 else rng.choice(["p", "p.q"]))
+            blocked = frozenset(c for p, _ in binds if p.startswith("p.") for c in p.split(".")) if pkg else frozenset()
+            e = macro_expr(rng, rng.randint(1, 3), [], blocked)
             for rn in ("I", "C"):
                 cases.append({"kind": "macro", "runner": rn, "pkg": pkg,
                               "decls": [], "binds": binds, "e": e})
